@@ -26,7 +26,7 @@ from . import common
 from .common import MachineryError
 
 LEVEL = "model_checking"
-USE_HB = False
+USE_HB = True
 
 HB_SLACK_NOTE = ("HarfBuzz fields: float32 outline arithmetic and F2Dot14 coordinates; judged with the slack "
                  "stated in Trace_C10 (HBTol)")
@@ -58,7 +58,7 @@ def build_trace(doc, masters, label, gen, optimize, rng, max_glyphs, hb=False, e
                               project_gvar, project_mvar, rat)
 
     tr = {"k": "build", "src": label, "gen": bool(gen), "opt": bool(optimize), "err": "",
-          "fvar": [], "avar": [], "regions": [], "items": [], "glyphs": []}
+          "fvar": [], "avar": [], "regions": [], "items": [], "glyphs": [], "hb": []}
     if extra:
         tr.update(extra)
     skips = {}
@@ -90,6 +90,7 @@ def build_trace(doc, masters, label, gen, optimize, rng, max_glyphs, hb=False, e
     except OutOfDomain as e:
         return {"k": "skip", "why": str(e), "src": label}, skips, None
     regions = Regions(tags)
+    tr["flavour"] = "ttf" if "glyf" in vf2 else "otf"
     order = vf2.getGlyphOrder()
     if len(order) > max_glyphs:
         # glyphs some master lacks first, then a seeded sample
@@ -111,7 +112,8 @@ def build_trace(doc, masters, label, gen, optimize, rng, max_glyphs, hb=False, e
     tr["regions"] = regions.list
     if hb and USE_HB:
         try:
-            tr["hb"] = hb_observe(data, doc, masters, tr, order)
+            comps = {g for g in order if "glyf" in vf2 and vf2["glyf"][g].isComposite()}
+            tr["hb"] = hb_observe(data, doc, masters, order, comps)
         except Exception as e:  # the observer is optional: never let it decide anything
             skips["HarfBuzz observer failed: %s" % type(e).__name__] = 1
     return tr, skips, data
@@ -120,35 +122,61 @@ def build_trace(doc, masters, label, gen, optimize, rng, max_glyphs, hb=False, e
 # --------------------------------------------------------------------------------------------------
 # HarfBuzz as an observer of the saved font at the master locations
 # --------------------------------------------------------------------------------------------------
-def hb_observe(data, doc, masters, tr, names):
-    """advances and outline points HarfBuzz reports at each master's USER location (so the path goes
-    through fvar default normalisation and avar).  The user location is found with the designspace's
-    own inverse map; TLC re-derives the design location with the forward map and ignores the record
-    if they disagree."""
+def hb_observe(data, doc, masters, names, composites=(), max_glyphs=6):
+    """HarfBuzz's view of the saved font at each master's USER location (so the path goes through fvar
+    default normalisation and avar), next to its view of the static master itself: advances and the
+    drawn outline (coordinates * 1024, rounded).  The user location is found with the designspace's own
+    inverse map; TLC re-derives the design location with the forward map and ignores the record if they
+    disagree."""
     from .hb import Shaper
-    from .c10_project import rat
+    from .c10_project import ADVANCE_SENTINEL, rat
 
     out = []
-    order = None
+    blobs = {}
     for mi, s in enumerate(doc.sources):
+        font = masters[mi]
+        if not all(t in font for t in ("head", "hhea", "maxp", "hmtx")):
+            continue  # a partial master (sparse layer) is not a font HarfBuzz can be asked about
+        if id(font) not in blobs:
+            try:
+                buf = io.BytesIO()
+                font.save(buf)
+                blobs[id(font)] = buf.getvalue()
+            except Exception:
+                blobs[id(font)] = None
+        if blobs[id(font)] is None:
+            continue
         full = s.getFullDesignLocation(doc)
         user = {a.tag: a.map_backward(full[a.name]) for a in doc.axes}
-        sh = Shaper(data, variations=user)
-        if order is None:
-            order = [sh.glyph_name(i) for i in range(sh.face.glyph_count)]
-        rec = {"m": mi + 1, "u": [rat(F(user[a.tag]).limit_denominator(1 << 12)) for a in doc.axes], "adv": [], "pts": []}
-        if any(abs(float(F(*u)) - user[a.tag]) > 1e-9 for u, a in zip(rec["u"], doc.axes)):
+        us = [F(user[a.tag]).limit_denominator(1 << 12) for a in doc.axes]
+        if any(abs(float(u) - user[a.tag]) > 1e-9 for u, a in zip(us, doc.axes)):
             continue
-        for g in names:
-            if g not in order:
+        vf = Shaper(data, variations={a.tag: float(u) for u, a in zip(us, doc.axes)})
+        ms = Shaper(blobs[id(font)])
+        ovf = {vf.glyph_name(i): i for i in range(vf.face.glyph_count)}
+        oms = {ms.glyph_name(i): i for i in range(ms.face.glyph_count)}
+        rec = {"m": mi + 1, "u": [rat(u) for u in us], "adv": [], "pts": []}
+        for g in names[:max_glyphs]:
+            if g not in ovf or g not in oms:
                 continue
-            gid = order.index(g)
-            rec["adv"].append([g, int(sh.h_advance(gid))])
-            pts = []
-            for op, co in sh.draw_glyph(gid):
-                for i in range(0, len(co), 2):
-                    pts.append([int(round(co[i] * 1024)), int(round(co[i + 1] * 1024))])
-            rec["pts"].append([g, pts])
+            a_m = int(ms.h_advance(oms[g]))
+            if a_m == ADVANCE_SENTINEL:
+                continue
+            pv, pm = vf.draw_glyph(ovf[g]), ms.draw_glyph(oms[g])
+            if not pm and pv:
+                continue  # empty in this master: the glyph is not supplied (sparse)
+            rec["adv"].append([g, int(vf.h_advance(ovf[g])), a_m])
+            if g in composites:
+                continue  # a composite accumulates the tolerances of its components: outlines of simple glyphs only
+            if "glyf" in font and g in font["glyf"].glyphs:
+                gl = font["glyf"][g]
+                if gl.numberOfContours > 0 and hasattr(gl, "coordinates") and min(x for x, _ in gl.coordinates) != font["hmtx"].metrics[g][1]:
+                    continue  # lsb differs from xMin: HarfBuzz shifts the static master's outline
+            q = lambda path: [[int(round(co[i] * 1024)), int(round(co[i + 1] * 1024))] for _, co in path for i in range(0, len(co), 2)]
+            if [op for op, _ in pv] != [op for op, _ in pm]:
+                rec["pts"].append([g, [[0, 0]], []])  # different path structure: shows as a length mismatch
+            else:
+                rec["pts"].append([g, q(pv), q(pm)])
         out.append(rec)
     return out
 
@@ -176,38 +204,44 @@ def drive_gen(case):
 
 
 def gen_cases(chk, gens):
-    """sample the exported designspaces: every class of the coverage mask, then a seeded sample"""
+    """sample the exported designspaces of every configuration: a few of every class of the coverage
+    mask, then a seeded sample that prefers the designspaces with most masters"""
     rng = chk.rng
     quick = chk.tier == "quick"
-    budget = {1: 150 if quick else 2500, 2: 250 if quick else 5000, 3: 80 if quick else 1500}
-    by_axes = {}
-    for js, mask in gens:
-        d = json.loads(js)
-        by_axes.setdefault(len(d["axes"]), []).append((d, mask))
+    scale = float(os.environ.get("VERIF_C10_DEV_SCALE", "1") or 1)   # development aid only
+    if scale != 1:
+        chk.notes["DEV_SCALE"] = scale
+    by_cfg = {}
+    for g in gens:
+        js, mask = g[0], g[1]
+        cfg = g[2] if len(g) > 2 else "cached"
+        by_cfg.setdefault(cfg, []).append((js, mask))
     cases = []
-    for n, lst in sorted(by_axes.items()):
-        lst.sort(key=lambda x: json.dumps(x[0], sort_keys=True))
+    for cfg, lst in sorted(by_cfg.items()):
+        lst.sort()
+        want = REPLAY_BUDGET.get(cfg, (100, 1000))[0 if quick else 1]
+        want = int(want * scale)
+        if want <= 0:
+            continue
         chosen = {}
-        # at least a few of every mask value
         by_mask = {}
-        for i, (d, mask) in enumerate(lst):
+        for i, (js, mask) in enumerate(lst):
             by_mask.setdefault(mask, []).append(i)
         for mask, idxs in sorted(by_mask.items()):
-            for i in rng.sample(idxs, min(len(idxs), 3)):
+            for i in rng.sample(idxs, min(len(idxs), 2)):
                 chosen[i] = True
-        want = budget.get(n, 100)
         rest = [i for i in range(len(lst)) if i not in chosen]
-        # prefer designspaces with more masters (the small ones are all taken by the mask pass)
-        rest.sort(key=lambda i: -len(lst[i][0]["srcs"]))
-        big = rest[: max(want * 3, 1)]
+        rest.sort(key=lambda i: (-lst[i][0].count('"loc"'), i))
+        big = rest[: max(want * 4, 1)]
         for i in rng.sample(big, min(len(big), max(0, want - len(chosen)))):
             chosen[i] = True
         for i in sorted(chosen):
-            d, mask = lst[i]
-            cid = "%da-%06d" % (n, i)
+            js, mask = lst[i]
+            d = json.loads(js)
+            cid = "%s-%06d" % (cfg.replace("MC_Build", "B") or "B", i)
             cases.append(dict(d, id=cid, mask=mask, seed=rng.getrandbits(40), sparse_style=rng.choice(["subset", "empty"]),
                               class_kern=rng.random() < 0.5, flavours=[True, False], optimize=rng.random() < 0.5,
-                              hb=rng.random() < (0.25 if quick else 0.5)))
+                              hb=rng.random() < (0.1 if quick else 0.3)))
     return cases
 
 
@@ -318,10 +352,17 @@ def drive_corpus(task):
 # (M)
 # --------------------------------------------------------------------------------------------------
 MC_JOBS = {
-    "quick": [("MC_Build", "MC_Build"), ("MC_Build", "MC_Build2"), ("MC_Build", "MC_Build3"), ("MC_Build", "MC_Build_gen")],
+    "quick": [("MC_Build", "MC_Build"), ("MC_Build", "MC_Build2"), ("MC_Build", "MC_Build3"), ("MC_Build", "MC_Build_gen"),
+              ("MC_Build", "MC_Build_gen4")],
     "thorough": [("MC_Build", "MC_Build_thorough"), ("MC_Build", "MC_Build2_thorough"), ("MC_Build", "MC_Build2b_thorough"),
-                 ("MC_Build", "MC_Build3_thorough"), ("MC_Build", "MC_Build_gen"), ("MC_Build", "MC_Build_gen_thorough")],
+                 ("MC_Build", "MC_Build2c_thorough"), ("MC_Build", "MC_Build3_thorough"), ("MC_Build", "MC_Build_gen"),
+                 ("MC_Build", "MC_Build_gen4"), ("MC_Build", "MC_Build_gen_thorough")],
 }
+# how many exported designspaces of each configuration are replayed against the real code (quick, thorough)
+REPLAY_BUDGET = {"MC_Build": (80, 1500), "MC_Build2": (50, 600), "MC_Build3": (50, 500), "MC_Build_gen": (90, 2000),
+                 "MC_Build_gen4": (80, 1500), "MC_Build_thorough": (110, 1500), "MC_Build2_thorough": (70, 1000),
+                 "MC_Build2b_thorough": (0, 800), "MC_Build2c_thorough": (0, 800), "MC_Build3_thorough": (70, 800),
+                 "MC_Build_gen_thorough": (0, 800)}
 WANT_MASK = 1 | 2 | 4 | 8 | 16 | 32 | 64
 
 
@@ -353,11 +394,11 @@ def run_mc(chk):
         for p in g:
             if len(p) != 2 or not isinstance(p[0], str):
                 raise MachineryError("%s: unparsable GEN line" % cfg)
-            gens.append((p[0], p[1]))
+            gens.append((p[0], p[1], cfg))
             seen |= p[1]
     if seen & WANT_MASK != WANT_MASK:
         raise MachineryError("MC_Build: designspace classes not all generated (mask %d)" % seen)
-    if not any(m & 32 for _, m in gens) or not any(not (m & 32) for _, m in gens):
+    if not any(g[1] & 32 for g in gens) or not any(not (g[1] & 32) for g in gens):
         raise MachineryError("MC_Build: vacuous (no refused / no built designspace)")
     chk.notes["MC_Build"] = counts
     chk.notes["MC_Build_class_mask"] = seen
@@ -398,7 +439,6 @@ def judge_and_report(chk, results):
             raise MachineryError("harness crashed on %s:\n%s" % (tr["src"], tr["what"]))
         else:
             traces.append(tr)
-    chk.count(sum(len(t["items"]) * 1 + len(t["glyphs"]) for t in traces))
     ncmp = 0
     for t in traces:
         nm = len(t["srcs"])
@@ -406,7 +446,8 @@ def judge_and_report(chk, results):
         ncmp += sum(sum(2 * g["cmp"] for v in g["m"] if v) for g in t["glyphs"])
         if not t["err"] and nm >= 3:
             chk.nontriv(("build", t["src"], common.digest([t["axes"], t["srcs"], t.get("case")])))
-    chk.notes["master_value_comparisons"] = chk.notes.get("master_value_comparisons", 0) + ncmp
+    chk.count(ncmp)
+    chk.notes["hb_records"] = chk.notes.get("hb_records", 0) + sum(len(t.get("hb", [])) for t in traces)
     from concurrent.futures import ThreadPoolExecutor
 
     payload = [dict(strip(t), i=i) for i, t in enumerate(traces)]
@@ -444,7 +485,7 @@ def judge_and_report(chk, results):
             item = v[1] if len(v) > 1 else ""
             kind = item.split(":")[0] if isinstance(item, str) else ""
             if kind == "outline":
-                kind = "gvar" if t.get("flavour", "ttf") == "ttf" and "CFF" not in t["src"] else "outline"
+                kind = "gvar" if t.get("flavour") == "ttf" else "CFF2"
             key = "%s:%s" % (c, kind) if kind else c
             chk.reject(key, "%s %s on %s (source %s)" % (c, item, t["src"], v[2] if len(v) > 2 else "?"), replay_of(t))
     if notes:
@@ -457,7 +498,8 @@ def run(chk):
 
     chk.rule = ("one case = one call of the real varLib.build on a designspace with real master fonts (TLC-exported designspace "
                 "realised as TrueType and CFF masters, or a corpus designspace with its TTX masters), projected and judged by "
-                "TLC at every master location; distinct by designspace + masters; non-trivial = built, with at least 3 masters")
+                "TLC at every master location; evaluations = (item or outline coordinate, master) comparisons; distinct by "
+                "designspace + masters; non-trivial = built, with at least 3 masters")
     t0 = time.time()
     quick = chk.tier == "quick"
     tasks, skipped = corpus_tasks()
@@ -494,9 +536,13 @@ def run(chk):
                         "glyphs": len(tr["glyphs"]), "regions": len(tr["regions"])})
     judge_and_report(chk, results)
     chk.exhaustive = False
-    chk.notes["exhaustive_parts"] = ("MC_Build: every designspace of the families named in the .cfg files (1 axis: all 8 axis shapes, "
-                                     "<= 3 extra masters on the half lattice; 2 axes: 3 shapes, <= 2 extra masters; 3 axes: corners and "
-                                     "axis ends, <= 2 extra masters), each with every combination of the item values and sparse flags")
+    chk.notes["exhaustive_parts"] = (
+        "MC_Build*: every designspace of the families named in the .cfg files -- quick: 1 axis x 8 axis shapes (plain, scaled, bent, "
+        "one-sided both ways, flat segment, two refused shapes) with <= 2 extra masters on the half lattice; 2 axes (one-sided) "
+        "with <= 2 extra masters on the half lattice (intermediate and corner masters); 3 axes with <= 2 extra masters on corners "
+        "and axis ends; each with every combination of item values {0, 3} and sparse flags; the thorough tier adds two-sided "
+        "2-axis families, 3 extra masters, the quarter lattice and bent 3-axis families.  MC_Build_gen* only export designspaces "
+        "(Normalise and its invariants) for the replay")
     chk.assumptions += [
         "the built font is judged as saved and reloaded; tables are decoded by fontTools' table classes (their codecs are C01/C15's subject)",
         "a font is evaluated at F2Dot14 coordinates: master locations are rounded to F2Dot14 and the derived scalar perturbation "
@@ -528,3 +574,74 @@ def replay(chk, rep):
     rej = judge_and_report(chk, results)
     for t, clause in rej:
         chk.log("rejected:", clause, t["src"])
+
+
+def selftest(chk):
+    """vacuity check of the binding: recordings corrupted in one field must be rejected by TLC, the
+    genuine ones accepted"""
+    import copy
+
+    chk.rule = "self-test: corrupted recordings must be rejected by TLC"
+    gens = run_mc(chk) if os.environ.get("VERIF_C10_GEN_CACHE") else None
+    if gens is None:
+        r = chk.tlc("MC_Build", cfg="MC_Build2", label="MC_Build2", timeout=1500)
+        gens = [(p[0], p[1]) for p in r.prints.get("GEN", [])]
+    rng = random.Random(11)
+    pool = [(js, m) for js, m in gens if (m & 4) and (m & 3) and not (m & 32) and len(json.loads(js)["srcs"]) >= 3]
+    good, bad = [], []
+    for k, (js, mask) in enumerate(rng.sample(pool, 3)):
+        case = dict(json.loads(js), id="self%d" % k, mask=mask, seed=k, sparse_style=["subset", "empty"][k % 2], class_kern=True,
+                    flavours=[True, False], optimize=True, hb=True)
+        for tr, _ in drive_gen(case):
+            if tr["k"] == "build" and not tr["err"]:
+                good.append(strip(tr))
+
+    def mut(t, f, label):
+        b = copy.deepcopy(t)
+        if f(b) is not False:
+            b["src"] = label
+            bad.append(b)
+
+    def first_item_with_rows(b):
+        return [i for i in b["items"] if i["r"]][0]
+
+    def glyph_with_tuples(b):
+        return [g for g in b["glyphs"] if g["tv"]][0]
+
+    for t in good[:2]:
+        mut(t, lambda b: b["items"][0].__setitem__("b", b["items"][0]["b"] + 1), "item base + 1")
+        mut(t, lambda b: first_item_with_rows(b)["r"][0].__setitem__(1, first_item_with_rows(b)["r"][0][1] + 2), "item delta + 2")
+        mut(t, lambda b: first_item_with_rows(b)["r"][0].__setitem__(0, (first_item_with_rows(b)["r"][0][0] + 1) % len(b["regions"])), "item row against the next region")
+        mut(t, lambda b: glyph_with_tuples(b)["pts"][0].__setitem__(0, glyph_with_tuples(b)["pts"][0][0] + 2 * glyph_with_tuples(b)["den"]), "outline point + 2")
+        mut(t, lambda b: b["fvar"][0][1].__setitem__(0, b["fvar"][0][1][0] + b["fvar"][0][1][1]), "fvar default + 1")
+        mut(t, lambda b: (b["hb"][0]["adv"][0].__setitem__(1, b["hb"][0]["adv"][0][1] + 3) if b["hb"] and b["hb"][0]["adv"] else False), "HarfBuzz advance + 3")
+        mut(t, lambda b: (b["hb"][0]["pts"][-1][1][0].__setitem__(0, b["hb"][0]["pts"][-1][1][0][0] + 4096) if b["hb"] and b["hb"][0]["pts"] and b["hb"][0]["pts"][-1][1] else False), "HarfBuzz point + 4")
+
+        def avar(b):
+            a = [i for i, seg in enumerate(b["avar"]) if len(seg) > 3]
+            if not a:
+                return False
+            b["avar"][a[0]][1][1][0] += 64
+        mut(t, avar, "avar knot shifted")
+
+        def sparse(b):
+            its = [i for i in b["items"] if any(not v for v in i["v"]) and i["n"].startswith("HVAR")]
+            if not its:
+                return False
+            it = its[0]
+            m = [k for k, v in enumerate(it["v"]) if not v][0]
+            # a row against every region: one of them peaks at the absent master
+            it["r"] = [[r, 0 if any(rr[0] == r for rr in it["r"]) else 7] for r in range(len(b["regions"]))] + it["r"]
+        mut(t, sparse, "row at an absent master")
+    rej = chk.judge("Trace_C10", [dict(t, i=i) for i, t in enumerate(good + bad)], timeout=1800)
+    got = {t["i"]: c for t, c in rej}
+    for i, t in enumerate(good):
+        if i in got and not str(got[i][0][0]).startswith(("skip:", "note:")):
+            raise MachineryError("self-test: a genuine recording was rejected: %s %s" % (got[i], t["src"]))
+    missed = [t["src"] for i, t in enumerate(bad, len(good)) if i not in got or str(got[i][0][0]).startswith(("skip:", "note:"))]
+    if missed:
+        raise MachineryError("self-test: corrupted recordings were accepted: %s" % missed)
+    chk.traces_validated = len(good)
+    chk.notes["selftest"] = "%d corrupted recordings rejected (%s); %d genuine accepted" % (
+        len(bad), sorted({"%s -> %s" % (t["src"], got[i][0][0]) for i, t in enumerate(bad, len(good))}), len(good))
+    chk.log(chk.notes["selftest"])
